@@ -36,9 +36,12 @@ pub enum Workload {
     /// very many children that are ready (or have ended) at once: hundreds to thousands of
     /// completions inside single polls, limits up to 600
     Flood,
+    /// big unbounded populations (hundreds to tens of thousands) with the oldest leaving and new
+    /// ones arriving for many times the population
+    Tide,
 }
 
-pub const ALL_WORKLOADS: [Workload; 14] = [
+pub const ALL_WORKLOADS: [Workload; 15] = [
     Workload::Generic,
     Workload::Budget,
     Workload::Groups,
@@ -53,6 +56,7 @@ pub const ALL_WORKLOADS: [Workload; 14] = [
     Workload::TaskSwap,
     Workload::Conveyor,
     Workload::Flood,
+    Workload::Tide,
 ];
 
 const MSB: usize = !(usize::MAX >> 1);
@@ -356,6 +360,8 @@ fn base_config(subject: SubjectKind, workload: Workload) -> Config {
         iter_kind: 0,
         src_hints: false,
         src_promise: false,
+        wake_in_drop: false,
+        zst_children: None,
         workload: format!("{:?}", workload),
     }
 }
@@ -374,6 +380,7 @@ pub fn applies(workload: Workload, s: SubjectKind) -> bool {
         Workload::AfterReady => matches!(s, JA | TJA),
         Workload::Conveyor => matches!(s, FUB | FU | FOB | FO | MB | MU),
         Workload::Flood => true,
+        Workload::Tide => matches!(s, FU | FO | MU),
     }
 }
 
@@ -434,6 +441,11 @@ pub fn generate(workload: Workload, subject: SubjectKind, seed: u64) -> (Config,
     cfg.iter_kind = if r.chance(1, 4) { r.range(2, 4) as u8 } else { 0 };
     cfg.src_hints = r.chance(1, 2);
     cfg.src_promise = cfg.src_hints && r.chance(1, 3);
+    cfg.wake_in_drop = r.chance(1, 6);
+    if (workload == Workload::Cap && r.chance(1, 5)) || (workload == Workload::Generic && r.chance(1, 40)) {
+        let n = r.pick(&[0usize, 1, 2, 5, 31, 32, 33, 61, 64, 70, 100, 130]);
+        cfg.zst_children = Some((n as u16, r.below(n as u64 + 1) as u16));
+    }
     cfg.cap = small_cap(r);
     if cfg.cap == 0 && !matches!(workload, Workload::Cap) {
         cfg.cap = 1 + r.below(4) as usize;
@@ -847,6 +859,24 @@ pub fn generate(workload: Workload, subject: SubjectKind, seed: u64) -> (Config,
                 w.push = 4;
                 n_ops = r.range(80, 400) as usize;
             }
+            if subject == SubjectKind::FO && r.chance(1, 6) {
+                // bursts: k outputs pile up behind the head, the head finishes, everything drains;
+                // again and again at the same peak
+                cfg.inexact_iter = false;
+                let k = r.pick(&[33usize, 34, 40, 64, 65, 70, 130]);
+                let cycles = r.range(30, 70) as usize;
+                let ready = Beh { ready: true, ..Beh::default() };
+                for _ in 0..cycles {
+                    // (the first head is the one pushed above)
+                    trace.push(Op::PushMany { beh: ready, n: k as u32 });
+                    trace.push(Op::Drive { max: 4 });
+                    trace.push(Op::FinishOldest { n: 1 });
+                    trace.push(Op::PollMany { max: (k + 3) as u16, fresh: false });
+                    trace.push(Op::Push { beh: Beh::default(), how: PushHow::Back });
+                }
+                trace.push(Op::Quiesce);
+                return (cfg, trace);
+            }
             if subject == SubjectKind::FO && r.chance(1, 4) {
                 // ladder: strictly alternate "a small batch arrives" / "it completes and is parked
                 // behind the stalled head", so that every container that holds parked outputs is
@@ -908,6 +938,21 @@ pub fn generate(workload: Workload, subject: SubjectKind, seed: u64) -> (Config,
                 }
                 Class::Adapter => {
                     cfg.cap = r.pick(&[1usize, 2, 4, 61, 62, 128, 256, 257, 300, 600]);
+                    if r.chance(1, 10) {
+                        // a very wide buffer that has to be filled in one go with futures that stay
+                        // pending
+                        cfg.cap = r.pick(&[513usize, 1000, 4097, 5000, 9000]);
+                        let n = cfg.cap + r.range(1, 300) as usize;
+                        cfg.upstream = (0..n).map(|_| UpEntry::Fut(Beh::default())).collect();
+                        cfg.up_released = n;
+                        trace.push(Op::Poll { fresh: false });
+                        trace.push(Op::Ready { sel: 0, delay: false });
+                        trace.push(Op::Drive { max: 8 });
+                        trace.push(Op::Ready { sel: 0x8000, delay: false });
+                        trace.push(Op::Drive { max: 8 });
+                        trace.push(Op::Freeze);
+                        return (cfg, trace);
+                    }
                     // mostly ready futures, or (a third of the time) futures that stay pending so
                     // that a wide buffer has to be filled in one go
                     let ready = !r.chance(1, 3);
@@ -955,6 +1000,53 @@ pub fn generate(workload: Workload, subject: SubjectKind, seed: u64) -> (Config,
                     trace.push(Op::Ready { sel: 0, delay: false });
                 }
                 trace.push(Op::Drive { max: 8 });
+            }
+            trace.push(Op::Quiesce);
+            return (cfg, trace);
+        }
+        Workload::Tide => {
+            // population p; waves in which the oldest w leave and w new ones arrive, for a total of
+            // several times p: whatever the growth policy, the allocations must stay logarithmic
+            let (p, churn) = match r.below(100) {
+                0..=69 => {
+                    let p = r.range(230, 600) as usize;
+                    (p, p * r.range(20, 40) as usize)
+                }
+                70..=91 => {
+                    let p = r.range(600, 2500) as usize;
+                    (p, p * 12)
+                }
+                92..=98 => {
+                    let p = r.range(8200, 12500) as usize;
+                    (p, p * 14)
+                }
+                _ => {
+                    let p = r.range(16500, 30000) as usize;
+                    (p, p * 8)
+                }
+            };
+            cfg.initial.clear();
+            cfg.start_pos = None;
+            cfg.shape &= 3;
+            cfg.wake_in_drop = false;
+            if subject != SubjectKind::MU && r.chance(1, 4) {
+                cfg.ctor = Ctor::WithCapacity;
+                cfg.cap = r.pick(&[1usize, 2, 64, 100]);
+            } else {
+                cfg.ctor = Ctor::New;
+            }
+            let pending = Beh::default();
+            trace.clear();
+            trace.push(Op::PushMany { beh: pending, n: p as u32 });
+            trace.push(Op::Poll { fresh: false });
+            let mut done = 0usize;
+            while done < churn {
+                let w = (p / r.range(2, 6) as usize).max(1);
+                trace.push(Op::FinishOldest { n: w as u32 });
+                trace.push(Op::PollMany { max: (w + 2).min(65000) as u16, fresh: false });
+                trace.push(Op::PushMany { beh: pending, n: w as u32 });
+                trace.push(Op::Poll { fresh: false });
+                done += w;
             }
             trace.push(Op::Quiesce);
             return (cfg, trace);
